@@ -6,7 +6,7 @@ Decides absence of the static sources of run-to-run variation on the generation 
    seeding sites; time values never feed a choice;
  * C16.set-order: every place where the iteration order of a hashed set (set / frozenset display,
    comprehension, constructor, set algebra, names / attributes / functions annotated as sets,
-   values of dicts of sets) becomes observable - a `for`, a list / generator comprehension, list(),
+   values of dicts of sets, names narrowed by `isinstance(v, set)` / `is_set(type(v))`) becomes observable - a `for`, a list / generator comprehension, list(),
    tuple(), OrderedSet(), join(), pop(), next(iter()) - is either consumed by an order-insensitive
    construct, wrapped in sorted(), or is one of the sites read and frozen in TRIAGE with a reason.
 Determinism of the module under test, of dict orders derived from module namespaces, and of thread
@@ -35,6 +35,7 @@ RNG_FUNCS_ALLOWED = {
 # key: (module, function, kind, iterated expression)
 TRIAGE = {
     ("pynguin.analyses.module", "collect_provider_metrics", "for", "params"): "statistics only: per-parameter counters are summed, nothing order-dependent is emitted",
+    ("pynguin.analyses.module", "_serialize_helper", "list", "obj"): "statistics only: JSON default hook for the SignatureInfos output variable; nothing of it reaches a test file",
     ("pynguin.assertion.assertiongenerator", "_select_minimal_assertions", "for", "keep"): "accumulates the union of kill sets",
     ("pynguin.ga.operators.comparator", "DominanceComparator.__init__", "OrderedSet", "{goal}"): "singleton set",
     ("pynguin.ga.postprocess", "_add_backward_dependencies", "for", "statement.used_variables()"): "only adds to the protected set; fixed point is order-independent",
@@ -53,6 +54,7 @@ TRIAGE = {
 SETANN = re.compile(r"^(set|frozenset|Set|FrozenSet|AbstractSet|MutableSet)\b")
 DICT_OF_SET = re.compile(r"^(dict|defaultdict|Dict|DefaultDict)\[[^,]+,\s*(set|frozenset)\b")
 INSENSITIVE_CALLS = {"sorted", "len", "any", "all", "sum", "min", "max", "set", "frozenset", "bool", "isinstance", "Counter"}
+HASHED_SET_FUNCTIONS = {"nx.ancestors", "nx.descendants", "networkx.ancestors", "networkx.descendants"}  # third-party functions returning a plain set
 SET_METHODS = {"union", "intersection", "difference", "symmetric_difference", "copy"}
 
 
@@ -97,7 +99,7 @@ class SetTyping:
             return True
         if isinstance(e, ast.Call):
             f = norm(e.func)
-            if f in ("set", "frozenset"):
+            if f in ("set", "frozenset") or f in HASHED_SET_FUNCTIONS:
                 return True
             if isinstance(e.func, ast.Attribute) and e.func.attr in SET_METHODS and self.is_set(e.func.value, sets, dos):
                 return True
@@ -136,15 +138,54 @@ def _benign_loop(loop: ast.For) -> bool:
     return True
 
 
+SET_TESTS = ("set", "frozenset", "AbstractSet", "Set", "MutableSet")
+
+
+def _narrowed(fn) -> dict[int, set[str]]:
+    """Names known to hold a hashed set inside the body of `if isinstance(v, set)` /
+    `if is_set(type(v))` (also through `t = type(v)`)."""
+    type_of = {}
+    for n in own_nodes(fn):
+        if isinstance(n, ast.Assign) and len(n.targets) == 1 and isinstance(n.targets[0], ast.Name) and isinstance(n.value, ast.Call) and norm(n.value.func) == "type" and len(n.value.args) == 1 and isinstance(n.value.args[0], ast.Name):
+            type_of[n.targets[0].id] = n.value.args[0].id
+    out: dict[int, set[str]] = {}
+    for n in own_nodes(fn):
+        if not isinstance(n, ast.If):
+            continue
+        names = set()
+        tests = n.test.values if isinstance(n.test, ast.BoolOp) and isinstance(n.test.op, ast.And) else [n.test]
+        for t in tests:
+            if not (isinstance(t, ast.Call) and t.args):
+                continue
+            f = last_attr(t) or norm(t.func)
+            if f == "isinstance" and len(t.args) == 2 and isinstance(t.args[0], ast.Name):
+                cls = t.args[1].elts if isinstance(t.args[1], ast.Tuple) else [t.args[1]]
+                if cls and all(norm(c).split(".")[-1] in SET_TESTS for c in cls):
+                    names.add(t.args[0].id)
+            elif f == "is_set":
+                a = t.args[0]
+                if isinstance(a, ast.Name) and a.id in type_of:
+                    names.add(type_of[a.id])
+                elif isinstance(a, ast.Call) and norm(a.func) == "type" and a.args and isinstance(a.args[0], ast.Name):
+                    names.add(a.args[0].id)
+        if names:
+            for s in n.body:
+                for sub in ast.walk(s):
+                    out.setdefault(id(sub), set()).update(names)
+    return out
+
+
 def find_sites(repo):
     typing = SetTyping(repo)
     sites = []
     for mod, qn, fn in repo.all_functions():
         if mod.name.startswith(OFF_PATH):
             continue
-        sets, dos = typing.names(fn)
+        sets0, dos = typing.names(fn)
+        narrowed = _narrowed(fn)
         for n in own_nodes(fn):
             it = kind = None
+            sets = {**sets0, **dict.fromkeys(narrowed[id(n)], "set (isinstance)")} if id(n) in narrowed else sets0
             if isinstance(n, ast.For) and typing.is_set(n.iter, sets, dos):
                 if _benign_loop(n):
                     continue
@@ -178,6 +219,17 @@ def check(ctx) -> None:
     repo = ctx.repo
     ctx.rule("C16.rng", "WHO-MAY: calls into the global `random` module, Random() construction, os.urandom, uuid, secrets, numpy.random only in the seeded-RNG module and the enumerated seeding / isolation sites", floor=3)
     ctx.rule("C16.set-order", "every observable iteration over a hashed set is order-insensitive by construction, sorted, or one of the frozen, individually read sites", floor=10)
+    ctx.rule("C16.hash-value", "hash() (randomised per process for str / bytes) is called only to implement __hash__ or to fill a cached hash attribute; its value never seeds, orders or selects", floor=20)
+    for mod_, qn_, fn_ in repo.all_functions():
+        for c_ in own_nodes(fn_):
+            if not (isinstance(c_, ast.Call) and isinstance(c_.func, ast.Name) and c_.func.id == "hash"):
+                continue
+            in_hash = fn_.name == "__hash__"
+            st_ = c_
+            while st_ is not None and not isinstance(st_, ast.stmt):
+                st_ = parent(st_)
+            caches = isinstance(st_, (ast.Assign, ast.AugAssign, ast.AnnAssign)) and any("hash" in norm(t_).lower() for t_ in (st_.targets if isinstance(st_, ast.Assign) else [st_.target]))
+            ctx.check("C16.hash-value", c_, in_hash or caches, f"{mod_.name}:{qn_}: the value of `{norm(c_)[:60]}` is used outside hashing; for anything that contains a str it differs from process to process (PYTHONHASHSEED), so whatever it seeds, orders or selects differs between two runs with the same seed", what=f"{qn_}: hash() only feeds __hash__", stmt=f"[{mod_.name}:{qn_}] {norm(c_)[:50]}")
     ctx.rule("C16.seed", "the configured seed reaches the RNG before anything is generated; RNG.seed is called nowhere else on the generation path", floor=2)
 
     # ------------------------------------------------------------------ C16.rng
